@@ -118,9 +118,55 @@ def rule_b(ctx: Context, R: Reporter):
     R.floor("C11.b", "tests on the -inf mask", n, 1)
 
 
+def rule_c(ctx: Context, R: Reporter):
+    """The joint replacement writes the rows selected by the -inf mask from rows
+    drawn (with replacement, one per bad row) among the rows selected by the
+    complementary mask, of the same batch."""
+    funcs = prior_draw_functions(ctx)
+    n = 0
+    for fi in funcs:
+        flow = flow_of(fi.node)
+        sites = [s for s in discover_sites(ctx, fi) if {"u", "x", "logl"} <= s.fields() and all(m.dst_index is not None for m in s.moves)]
+        for s in sites:
+            n += 1
+            m0 = s.moves[0]
+            tgt_name = s.index_name
+            src_names = {m.src_index[0] for m in s.moves if m.src_index is not None}
+            rs = ExprResolver(fi.node)
+            tdefs = flow.reaching(m0.node, tgt_name)
+            # target index = all_idx[mask] with mask = isinf(logl) of this batch
+            t_ok = False
+            mask_txt = None
+            for d in tdefs:
+                rx = rs.resolve(d.value, d.node) if d.value is not None else None
+                if rx is not None and isinstance(rx, ast.Subscript):
+                    sl = rx.slice
+                    if isinstance(sl, ast.Call) and (ctx.res.external_name(fi, sl) or "") in ("numpy.isinf",) or (isinstance(sl, ast.UnaryOp) and isinstance(sl.op, ast.Invert) and isinstance(sl.operand, ast.Call) and (ctx.res.external_name(fi, sl.operand) or "") == "numpy.isfinite"):
+                        t_ok = True
+                        mask_txt = norm_text(sl)
+            R.check("C11.c", "the replaced rows are exactly the rows with infinite log-likelihood", t_ok, fi, m0.stmt,
+                    msg=f"{fi.short}: target index `{tgt_name}` of the joint replacement is not all_idx[isinf(logl)]", key="replace-target")
+            s_ok = False
+            for sn in src_names:
+                for d in flow.reaching(m0.node, sn):
+                    v = d.value
+                    if isinstance(v, ast.Call) and (ctx.res.external_name(fi, v) or "") == "numpy.random.choice":
+                        pop = rs.resolve(v.args[0], d.node) if v.args else None
+                        size = call_arg(v, 1, "size")
+                        rep = call_arg(v, 2, "replace")
+                        comp = pop is not None and isinstance(pop, ast.Subscript) and isinstance(pop.slice, ast.UnaryOp) and isinstance(pop.slice.op, ast.Invert) and mask_txt is not None and norm_text(pop.slice.operand) == mask_txt
+                        size_ok = size is not None and norm_text(size) == f"len({tgt_name})"
+                        rep_ok = rep is None or (isinstance(rep, ast.Constant) and rep.value is True)
+                        s_ok = comp and size_ok and rep_ok
+            R.check("C11.c", "replacement rows are drawn, one per bad row and with replacement, among the finite rows of the same batch", s_ok, fi, m0.stmt,
+                    msg=f"{fi.short}: the source index of the joint replacement is not np.random.choice(all_idx[~mask], size=len({tgt_name}), replace=True): a replaced particle could keep or receive a -inf row", key="replace-source")
+    R.floor("C11.c", "joint replacement sites", n, 1)
+
+
 def run(ctx: Context, R: Reporter):
     R.guard(rule_a, ctx, R)
     R.guard(rule_b, ctx, R)
+    R.guard(rule_c, ctx, R)
 
 
 def variants():
@@ -131,5 +177,7 @@ def variants():
         Variant("a-accumulate", "bad", replace_stmt(mu, "Mutator.run", "logz = np.log(n_finite / n_total)", "logz = self.state.get_current('logz') + np.log(n_finite / n_total)"), ["C11.a"], quick=True),
         Variant("a-accumulate-hoisted", "bad", replace_stmt(mu, "Mutator.run", "logz = np.log(n_finite / n_total)", "prev = self.state.get_current('logz')\nlogz = prev + np.log(n_finite / n_total)"), ["C11.a"], quick=True),
         Variant("a-constant", "bad", replace_stmt(mu, "Mutator.run", "logz = np.log(n_finite / n_total)", "logz = 0.0"), ["C11.a"]),
+        Variant("c-source-from-all", "bad", replace_expr(mu, "Mutator.run", "np.random.choice(finite_idx, size=len(infinite_idx), replace=True)", "np.random.choice(all_idx, size=len(infinite_idx), replace=True)"), ["C11.c"], quick=True),
+        Variant("c-target-finite", "bad", replace_expr(mu, "Mutator.run", "all_idx[inf_logl_mask]", "all_idx[~inf_logl_mask]", 0), ["C11.c", "C11.b"]),
         Variant("benign-rename", "benign", alpha_rename(mu, "Mutator.run", "n_finite", "n_ok"), quick=True),
     ]
